@@ -622,16 +622,202 @@ Proof.
     destruct (delete_rows s n ids [] 0) as [[s1 b] o]. cbn [e_store fst] in *. apply X.
 Qed.
 
+(* ====================== the store after the first i row operations (C03) ====================== *)
+(* Rep and SelfOk look at cells, offsets, the page-table root and the allocation frontier only:
+   they are insensitive to dirty flags and page LSNs (el = true) *)
+Lemma Rep_upto el a S d : seqg el a S -> SInv a -> Rep S d -> Rep a d.
+Proof.
+  intros [Hf Hp _] Hinv [_ Hok (pt & sc & ents & osc & HC)]. constructor; auto.
+  destruct HC as [Cpt Cptc Cfits Cn Coffs Cosc Csc Cscc Cscf Ctabs].
+  pose proof (ger_find_root el (ptRoot S) _ _ Hf) as Fpt. rewrite Cpt in Fpt.
+  destruct (find_root (ptRoot S) (forest a)) as [pt'|] eqn:Ept; [|contradiction].
+  pose proof (ger_find_root el osc _ _ Hf) as Fsc. rewrite Csc in Fsc.
+  destruct (find_root osc (forest a)) as [sc'|] eqn:Esc; [|contradiction].
+  exists pt', sc', ents, osc. constructor; auto.
+  - rewrite Hp. exact Ept.
+  - rewrite <- (erase_cells el pt'), Fpt, erase_cells. exact Cptc.
+  - rewrite Hp. exact Coffs.
+  - rewrite <- (erase_cells el sc'), Fsc, erase_cells. exact Cscc.
+  - intros t Ht. destruct (Ctabs t Ht) as (o & tr & He & Hr & HT).
+    pose proof (ger_find_root el o _ _ Hf) as F. rewrite Hr in F.
+    destruct (find_root o (forest a)) as [tr'|] eqn:Etr; [|contradiction].
+    exists o, tr'. split; [exact He|]. split; [exact Etr|].
+    unfold TableRep, scan_tree in *. rewrite <- (erase_cells el tr'), F, erase_cells. exact HT.
+Qed.
+
+Lemma roots_erase_g el f : roots (map (erase el) f) = roots f.
+Proof. unfold roots. rewrite map_map. apply map_ext. intros t. apply erase_off. Qed.
+
+Lemma SelfOk_upto el a b : seqg el a b -> SelfOk b -> SelfOk a.
+Proof.
+  intros S (A & B & C). split; [|split].
+  - rewrite (seqg_rel_offset el a b _ S). exact A.
+  - rewrite (sg_free el _ _ S). exact B.
+  - intros o t Ho. rewrite (sg_pt el _ _ S). destruct (find_root_In _ _ _ Ho) as [Hin Hoff].
+    assert (Hr : In o (roots (forest b))).
+    { rewrite <- (roots_erase_g el), <- (sg_forest el _ _ S), roots_erase_g. unfold roots. rewrite <- Hoff. apply in_map. exact Hin. }
+    destruct (in_roots_find _ _ Hr) as [t' Ht']. eapply C; eauto.
+Qed.
+
+Lemma Forall_firstn_p {A} (P : A -> Prop) i l : Forall P l -> Forall P (firstn i l).
+Proof. rewrite !Forall_forall. intros H x Hx. apply H. eapply In_firstn_In. exact Hx. Qed.
+
+Lemma NoDup_firstn_p {A} i : forall (l : list A), NoDup l -> NoDup (firstn i l).
+Proof.
+  induction i as [|i IH]; intros l H; [constructor|]. destruct l as [|a l]; [constructor|].
+  inversion H; subst. cbn [firstn]. constructor; [|apply IH; assumption].
+  intros X. apply (In_firstn_In i) in X. contradiction.
+Qed.
+
+Lemma forallb_firstn_p {A} (p : A -> bool) i : forall l, forallb p l = true -> forallb p (firstn i l) = true.
+Proof.
+  induction i as [|i IH]; intros l H; [reflexivity|]. destruct l as [|a l]; [reflexivity|].
+  cbn [firstn forallb] in *. apply andb_true_iff in H as [Ha Hl]. rewrite Ha. cbn [andb]. apply IH. exact Hl.
+Qed.
+
+Lemma first_err_firstn {A} (chk : A -> res unit) i : forall l u,
+  first_err chk l = Ok u -> exists u', first_err chk (firstn i l) = Ok u'.
+Proof.
+  induction i as [|i IH]; intros l u H; [exists tt; reflexivity|]. destruct l as [|a l]; [exists tt; reflexivity|].
+  cbn [firstn first_err] in *. destruct (chk a) as [x|e|]; try discriminate. exact (IH l u H).
+Qed.
+
+(* a row loop that succeeds on the whole list succeeds on every prefix of it *)
+Lemma insert_rows_prefix_ok n cols rows : forall i s b k s' b' c,
+  insert_rows s n cols rows b k = (s', b', OOk c) ->
+  exists s_i b_i c_i, insert_rows s n cols (firstn i rows) b k = (s_i, b_i, OOk c_i) /\ nextFree s_i <= nextFree s'.
+Proof.
+  induction rows as [|r rest IH]; intros i s b k s' b' c H.
+  - rewrite firstn_nil. cbn [insert_rows] in *. inversion H; subst. exists s', b', c. split; [reflexivity | lia].
+  - destruct i as [|i].
+    + cbn [firstn insert_rows]. exists s, b, k. split; [reflexivity|].
+      pose proof (insert_rows_free_mono (r :: rest) s n cols b k) as X. rewrite H in X. exact X.
+    + cbn [firstn insert_rows] in *. destruct (st_insert s n cols r) as [s1 [ws|e|]]; try (inversion H; fail).
+      exact (IH i _ _ _ _ _ _ H).
+Qed.
+
+Lemma update_rows_prefix_ok n cols vals ids : forall i s b s' b' c,
+  update_rows s n cols vals ids b = (s', b', OOk c) ->
+  exists s_i b_i c_i, update_rows s n cols vals (firstn i ids) b = (s_i, b_i, OOk c_i).
+Proof.
+  induction ids as [|k rest IH]; intros i s b s' b' c H.
+  - rewrite firstn_nil. eauto.
+  - destruct i as [|i]; [cbn [firstn update_rows]; eauto|].
+    cbn [firstn update_rows] in *. destruct (st_update s n k cols vals) as [s1 [ws|e|]]; try (inversion H; fail).
+    exact (IH i _ _ _ _ _ H).
+Qed.
+
+Lemma delete_rows_prefix_ok n ids : forall i s b k0 s' b' c,
+  delete_rows s n ids b k0 = (s', b', OOk c) ->
+  exists s_i b_i c_i, delete_rows s n (firstn i ids) b k0 = (s_i, b_i, OOk c_i).
+Proof.
+  induction ids as [|k rest IH]; intros i s b k0 s' b' c H.
+  - rewrite firstn_nil. eauto.
+  - destruct i as [|i]; [cbn [firstn delete_rows]; eauto|].
+    cbn [firstn delete_rows] in *. destruct (st_delete s n k) as [s1 [ws|e|]]; try (inversion H; fail).
+    exact (IH i _ _ _ _ _ _ H).
+Qed.
+
+(* the store after the first i row operations of an acknowledged statement still satisfies the
+   refinement invariant: it represents the database after INSERT of the first i rows / UPDATE or
+   DELETE of the first i matching ids *)
+Lemma prefix_rep s d st c i :
+  Rep s d -> SelfOk s -> RefineMain.stmt_ok st = true ->
+  nextFree (e_store (run_stmt s st)) <= OFFMAX -> e_out (run_stmt s st) = OOk c ->
+  SelfOk (run_rows s st i) /\ exists d_i, Rep (run_rows s st i) d_i.
+Proof.
+  intros HR HS Hst Hmax Hout.
+  destruct st as [q|n cds|n| |n|n cols rows|n sets w|n w]; cbn [run_rows]; try (split; [exact HS | exists d; exact HR]).
+  - (* INSERT: the first i rows are an INSERT statement of their own *)
+    cbn [RefineMain.stmt_ok] in Hst. cbn [run_stmt] in Hmax, Hout.
+    destruct (first_err (check_insert s n cols) rows) as [u|e0|] eqn:Efe; try discriminate.
+    destruct (insert_rows s n cols rows [] 0) as [[s1 b] o] eqn:Er. cbn [e_store e_out] in *. subst o.
+    destruct (insert_rows_prefix_ok n cols rows i s [] 0%nat s1 b c Er) as (s_i & b_i & c_i & Ei & Hnf).
+    destruct (first_err_firstn (check_insert s n cols) i rows u Efe) as [u' Efi].
+    assert (Hrun : run_stmt s (SInsert n cols (firstn i rows)) = mkEffect s_i b_i false (OOk c_i)).
+    { cbn [run_stmt]. rewrite Efi, Ei. reflexivity. }
+    assert (Hst_i : RefineMain.stmt_ok (SInsert n cols (firstn i rows)) = true).
+    { cbn [RefineMain.stmt_ok]. apply forallb_firstn_p. exact Hst. }
+    pose proof (run_stmt_self s d _ c_i HR HS Hst_i) as X1.
+    pose proof (run_stmt_rep s d _ c_i HR Hst_i) as X2.
+    rewrite Hrun in X1, X2. cbn [e_store e_out] in X1, X2. rewrite Ei. cbn [fst].
+    assert (Hmax_i : nextFree s_i <= OFFMAX) by lia.
+    split; [exact (X1 Hmax_i eq_refl) | eexists; exact (X2 Hmax_i eq_refl)].
+  - (* UPDATE *)
+    cbn [RefineMain.stmt_ok] in Hst. rename Hst into Hv. apply forallb_Forall in Hv.
+    cbn [run_stmt] in Hmax, Hout. change (upd_vals sets) with (set_vals sets). fold (set_vals sets) in *.
+    destruct (existsb _ sets) eqn:Ex; [cbn in Hout; discriminate|].
+    destruct (where_ids s n w) as [idl|e|] eqn:Ew; cbn [e_out e_store] in *; try discriminate.
+    destruct (first_err _ idl) as [u|e0|]; cbn [e_out e_store] in *; try discriminate.
+    destruct (update_rows s n (map fst sets) (set_vals sets) idl []) as [[s1 b] o1] eqn:Eu. cbn [e_store e_out] in *. subst o1.
+    destruct (update_rows_prefix_ok n _ _ idl i s [] s1 b c Eu) as (s_i & b_i & c_i & Ei).
+    split.
+    { pose proof (update_rows_uinv n (map fst sets) (set_vals sets) (firstn i idl) s [] (UInv_rep n s d HR HS)) as X.
+      apply X. }
+    rewrite Ei. cbn [fst].
+    destruct (is_sys n) eqn:Hsys.
+    { destruct (firstn i idl) as [|k rest]; [cbn [update_rows] in Ei; inversion Ei; subst; exists d; exact HR|].
+      exfalso. cbn [update_rows] in Ei. unfold st_update, upd_bad_cols, st_update0 in Ei.
+      rewrite is_sys_table_is_sys, Hsys in Ei. cbn in Ei. discriminate. }
+    destruct (find_tbl n d) as [t|] eqn:Hf.
+    2:{ exfalso. unfold where_ids in Ew. rewrite (st_fetch_missing s d n HR Hsys Hf) in Ew. discriminate. }
+    destruct (where_ids_spec s n w idl Ew) as (idrows & fs & Hfetch & Hids & Hev).
+    destruct (st_fetch_user s d n t HR Hsys Hf) as (o & tr & Eo & Hr & Es & Ht & Hfetch').
+    rewrite Hfetch' in Hfetch. inversion Hfetch; subst idrows fs. clear Hfetch.
+    destruct (fetch_rows_ids s d n t o tr HR Hsys Hf Eo Hr) as (Hidc & Hrows & Hndk).
+    assert (Efr : fetch_rows s n = combine (keys_of (scan_tree tr)) (tb_rows t)) by (unfold fetch_rows; rewrite Hfetch'; reflexivity).
+    rewrite <- Efr in *.
+    assert (Hks : forall k, In k (firstn i idl) -> In k (map fst (fetch_rows s n))).
+    { intros k Hk. apply In_firstn_In in Hk. subst idl. apply in_map_iff in Hk as (kr & <- & Hkr).
+      apply filter_In in Hkr as [Hkr _]. apply in_map. exact Hkr. }
+    assert (Hnd : NoDup (firstn i idl)).
+    { apply NoDup_firstn_p. subst idl. apply NoDup_map_filter. exact Hndk. }
+    destruct (update_rows_rep n (map fst sets) (set_vals sets) (firstn i idl) s d t [] s_i b_i c_i HR Hsys Hf Hv Hks Hnd Ei) as (HR_i & _).
+    eexists. exact HR_i.
+  - (* DELETE *)
+    cbn [run_stmt] in Hmax, Hout.
+    destruct (where_ids s n w) as [idl|e|] eqn:Ew; cbn [e_out e_store] in *; try discriminate.
+    destruct (delete_rows s n idl [] 0) as [[s1 b] o1] eqn:Eu. cbn [e_store e_out] in *. subst o1.
+    destruct (delete_rows_prefix_ok n idl i s [] 0%nat s1 b c Eu) as (s_i & b_i & c_i & Ei).
+    split.
+    { pose proof (delete_rows_uinv n (firstn i idl) s [] 0%nat (UInv_rep n s d HR HS)) as X. apply X. }
+    rewrite Ei. cbn [fst].
+    destruct (is_sys n) eqn:Hsys.
+    { destruct (firstn i idl) as [|k rest]; [cbn [delete_rows] in Ei; inversion Ei; subst; exists d; exact HR|].
+      exfalso. cbn [delete_rows] in Ei. unfold st_delete in Ei. rewrite is_sys_table_is_sys, Hsys in Ei.
+      cbn in Ei. discriminate. }
+    destruct (find_tbl n d) as [t|] eqn:Hf.
+    2:{ exfalso. unfold where_ids in Ew. rewrite (st_fetch_missing s d n HR Hsys Hf) in Ew. discriminate. }
+    destruct (where_ids_spec s n w idl Ew) as (idrows & fs & Hfetch & Hids & Hev).
+    destruct (st_fetch_user s d n t HR Hsys Hf) as (o & tr & Eo & Hr & Es & Ht & Hfetch').
+    rewrite Hfetch' in Hfetch. inversion Hfetch; subst idrows fs. clear Hfetch.
+    destruct (fetch_rows_ids s d n t o tr HR Hsys Hf Eo Hr) as (Hidc & Hrows & Hndk).
+    assert (Hks : forall k, In k (firstn i idl) -> In k (map fst (fetch_rows s n))).
+    { intros k Hk. apply In_firstn_In in Hk. subst idl.
+      assert (Efr : fetch_rows s n = combine (keys_of (scan_tree tr)) (tb_rows t)) by (unfold fetch_rows; rewrite Hfetch'; reflexivity).
+      rewrite Efr. apply in_map_iff in Hk as (kr & <- & Hkr).
+      apply filter_In in Hkr as [Hkr _]. apply in_map. exact Hkr. }
+    assert (Hnd : NoDup (firstn i idl)).
+    { apply NoDup_firstn_p. subst idl.
+      assert (Efr : fetch_rows s n = combine (keys_of (scan_tree tr)) (tb_rows t)) by (unfold fetch_rows; rewrite Hfetch'; reflexivity).
+      rewrite <- Efr. apply NoDup_map_filter. exact Hndk. }
+    destruct (delete_rows_rep n (firstn i idl) s d t [] 0%nat s_i b_i c_i HR Hsys Hf Hks Hnd Ei) as (HR_i & _).
+    eexists. exact HR_i.
+Qed.
+
 (* ====================== histories of statements, flushes and crash-restarts ====================== *)
 (* (H1) the statement is atomic when it fails; its literals are Go values; the allocation frontier
-   stays within int64 - no (H2). Crashes inside a log append / inside a flush (C03 / C04 events)
-   are not part of these histories. *)
+   stays within int64 - no (H2). A crash inside the log append of a statement (C03's event) asks of
+   that statement what EvStmt asks; a crash inside a flush (C04's event) asks nothing: when the
+   model has no torn file for W the step fails and the history ends. *)
 Definition ev_ok1 (y : sys) (ev : event) : Prop :=
   match ev with
   | EvStmt st => stmt_atomic (mem y) st /\ RefineMain.stmt_ok st = true /\
                  nextFree (e_store (run_stmt (mem y) st)) <= OFFMAX
   | EvFlush | EvCrash => True
-  | _ => False
+  | EvCrashInLog st _ => stmt_atomic (mem y) st /\ RefineMain.stmt_ok st = true /\
+                         nextFree (e_store (run_stmt (mem y) st)) <= OFFMAX
+  | EvTornFlush _ => True
   end.
 
 Fixpoint hist_ok1 (y : sys) (evs : list event) : Prop :=
@@ -648,8 +834,9 @@ Proof. split; [apply inv2_init|]. split; [apply SelfOk_init | exists []; apply R
 
 Lemma ev_ok1_ev_ok y ev : RInv y -> ev_ok1 y ev -> CrashHist.ev_ok y ev.
 Proof.
-  intros (_ & HS & d & HR) H. destruct ev; cbn [ev_ok1 CrashHist.ev_ok] in *; try exact I; try contradiction.
-  destruct H as (Hat & Hst & Hmax). split; [exact Hat|]. apply (rep_moves_ok (mem y) d st HR HS Hst Hmax).
+  intros (_ & HS & d & HR) H. destruct ev; cbn [ev_ok1 CrashHist.ev_ok] in *; try exact I.
+  - destruct H as (Hat & Hst & Hmax). split; [exact Hat|]. apply (rep_moves_ok (mem y) d st HR HS Hst Hmax).
+  - destruct H as (Hat & Hst & Hmax). split; [exact Hat|]. apply (rep_moves_ok (mem y) d st HR HS Hst Hmax).
 Qed.
 
 (* the recovered cache: equal to the lost one up to dirty flags, so it represents the same database *)
@@ -665,7 +852,7 @@ Proof.
   intros HI Hok Hs. pose proof (ev_ok1_ev_ok y ev HI Hok) as Hok'.
   destruct HI as (HI2 & HS & d & HR).
   split; [exact (inv2_step y ev y1 o HI2 Hok' Hs)|].
-  destruct ev; cbn [ev_ok1] in Hok; try contradiction.
+  destruct ev; cbn [ev_ok1] in Hok.
   - destruct Hok as (Hat & Hst & Hmax). cbn [step] in Hs. unfold exec in Hs.
     destruct (e_out (run_stmt (mem y) st)) as [c|e|] eqn:Eo; inversion Hs; subst; cbn [mem].
     + split; [exact (run_stmt_self _ d st c HR HS Hst Hmax Eo)|].
@@ -678,6 +865,44 @@ Proof.
   - cbn [step] in Hs. destruct HI2 as [HI _]. destruct (inv_recover y HI) as (r & _ & Hrec & Sf & Gf & _).
     rewrite Hrec in Hs. inversion Hs; subst. cbn [mem].
     split; [apply (SelfOk_seq _ _ Sf HS) | exists d; apply (Rep_recovered r (mem y) d Sf (good_s _ Gf) HR)].
+  - (* a crash inside the log append of st *)
+    destruct Hok as (Hat & Hst & Hmax). destruct Hok' as [_ Hmv]. destruct HI2 as [HI _].
+    destruct (e_flushed (run_stmt (mem y) st)) eqn:Efl.
+    + (* CREATE TABLE: flushed, nothing logged: the recovered cache is the statement's result *)
+      destruct (flushed_shape _ _ Efl) as [Eok Eb].
+      destruct (e_out (run_stmt (mem y) st)) as [c|e|] eqn:Eo; try discriminate.
+      pose proof (run_stmt_self _ d st c HR HS Hst Hmax Eo) as HS1.
+      pose proof (run_stmt_rep _ d st c HR Hst Hmax Eo) as HR1.
+      destruct HI as (r & Hrep & Hseq & Gr & HGL).
+      pose proof (log_stmt (wal y) (mem y) st HGL) as HL. rewrite Eo, Eb, app_nil_r in HL. cbn [is_ok] in HL.
+      cbn [step] in Hs. rewrite Efl, Eo, Eb, firstn_nil, app_nil_r in Hs. cbn [is_ok] in Hs.
+      set (es := e_store (run_stmt (mem y) st)) in *.
+      assert (HI0 : Inv (mkSys es es (wal y))).
+      { exists es. cbn [mem disk wal]. split; [apply replay_inert; apply HL|].
+        split; [apply seq_refl|]. split; [apply HL | exact HL]. }
+      destruct (inv_recover _ HI0) as (r0 & _ & Hrec & Sf & Gf & _). rewrite Hrec in Hs. inversion Hs; subst.
+      cbn [mem] in *.
+      split; [apply (SelfOk_seq _ _ Sf HS1) | eexists; apply (Rep_recovered r0 es _ Sf (good_s _ Gf) HR1)].
+    + destruct (is_ok (e_out (run_stmt (mem y) st))) eqn:Eok.
+      * (* INSERT / UPDATE / DELETE: the recovered cache is, up to dirty flags and page LSNs, the
+           store after the first i row operations *)
+        destruct (e_out (run_stmt (mem y) st)) as [c| |] eqn:Eo; try discriminate.
+        assert (Hd : is_dml st = true) by (apply (ok_unflushed_is_dml (mem y)); [rewrite Eo; reflexivity | exact Efl]).
+        destruct (crash_in_log y st c j HI Hd Hmv Eo) as (y' & Hst' & _ & _ & (Gj & Lj & _) & _ & _).
+        rewrite Hst' in Hs. inversion Hs; subst.
+        destruct (prefix_rep (mem y) d st c (started (op_sizes (mem y) st) j) HR HS Hst Hmax Eo) as [HSi [d_i HRi]].
+        split; [exact (SelfOk_upto true _ _ Lj HSi) | exists d_i; exact (Rep_upto true _ _ _ Lj (good_s _ Gj) HRi)].
+      * (* the statement failed: a plain crash-restart *)
+        cbn [step] in Hs. rewrite Efl, Eok in Hs. rewrite <- (recover_disk_wal (mem y)) in Hs.
+        destruct (inv_recover y HI) as (r & _ & Hrec & Sf & Gf & _).
+        destruct y as [m dk w]. cbn [mem disk wal] in *. rewrite Hrec in Hs. inversion Hs; subst. cbn [mem].
+        split; [apply (SelfOk_seq _ _ Sf HS) | exists d; apply (Rep_recovered r m d Sf (good_s _ Gf) HR)].
+  - (* a crash inside a flush: the recovered cache equals the lost one up to dirty flags *)
+    destruct HI2 as [HI HT]. cbn [step] in Hs. destruct (torn_disk y W) as [dk|] eqn:Et; [|discriminate].
+    destruct (torn_flush_inv y W dk HI HT Et) as (y' & Hrec & Sf & _ & _ & HI' & _).
+    rewrite Hrec in Hs. inversion Hs; subst.
+    assert (Hinv' : SInv (mem y1)). { destruct HI' as (_ & _ & _ & _ & [G _]). exact (good_s _ G). }
+    split; [exact (SelfOk_seq _ _ Sf HS) | exists d; exact (Rep_upto true _ _ _ (seq_seqL _ _ Sf) Hinv' HR)].
 Qed.
 
 Lemma hist_ok1_hist_ok evs : forall y, RInv y -> hist_ok1 y evs -> hist_ok y evs.
